@@ -110,8 +110,8 @@ pub fn seal<CS: CipherSuite, R: RngCore + CryptoRng>(
     }
     let e = spec::envelope(&rpwd, &nonce, &spk, ids.server.unwrap_or(&spk), ids.client.unwrap_or(&cpk));
     let mut envb = [0u8; NN + NH];
-    envb[..NN].copy_from_slice(&nonce);
-    envb[NN..].copy_from_slice(&e.auth_tag);
+    put(&mut envb[..NN], &nonce);
+    put(&mut envb[NN..], &e.auth_tag);
     Ok((Envelope::deserialize(&envb)?, PublicKey::deserialize(&cpk)?, Output::<OprfHash<CS>>::clone_from_slice(&export)))
 }
 
@@ -138,17 +138,25 @@ pub fn open<'a, CS: CipherSuite>(
 // recording key exchange
 // ---------------------------------------------------------------------------------------------------
 
-pub const REC_CAP: usize = 96;
+/// What the recording key exchange remembers of an `impl Iterator<Item = &[u8]>` argument: for the first six parts their
+/// lengths and first four bytes, and whether there were more. (Copying whole parts byte by byte makes CBMC iterate every
+/// inner loop to its bound for every candidate slice of the `Chain` state — 22 M SAT variables, out of memory; a fixed
+/// number of `next()` calls with a 4-byte fingerprint each is enough to tell which objects were passed, in which order.)
+#[derive(Clone, Copy)]
+pub struct Parts {
+    pub n: usize,
+    pub len: [usize; 6],
+    pub head: [[u8; 4]; 6],
+    pub more: bool,
+}
+pub const NO_PARTS: Parts = Parts { n: 0, len: [0; 6], head: [[0; 4]; 6], more: false };
+
 pub struct Rec {
     pub calls: usize,
-    pub l1: [u8; REC_CAP],
-    pub l1_len: usize,
-    pub l2: [u8; REC_CAP],
-    pub l2_len: usize,
-    pub id_u: [u8; 8],
-    pub id_u_len: usize,
-    pub id_s: [u8; 8],
-    pub id_s_len: usize,
+    pub l1: Parts,
+    pub l2: Parts,
+    pub id_u: Parts,
+    pub id_s: Parts,
     pub ctx: [u8; 8],
     pub ctx_len: usize,
     pub peer_pk: [u8; 2],   // client_s_pk (ke2) / server_s_pk (ke3)
@@ -160,7 +168,7 @@ pub struct Rec {
     pub overflow: bool,
 }
 pub static mut REC: Rec = Rec {
-    calls: 0, l1: [0; REC_CAP], l1_len: 0, l2: [0; REC_CAP], l2_len: 0, id_u: [0; 8], id_u_len: 0, id_s: [0; 8], id_s_len: 0,
+    calls: 0, l1: NO_PARTS, l2: NO_PARTS, id_u: NO_PARTS, id_s: NO_PARTS,
     ctx: [0; 8], ctx_len: 0, peer_pk: [0; 2], own_pk: [0; 2], own_pk_ok: false, ke1_msg: [0; 34], ke2_msg: [0; 42], ke1_state: [0; 33], overflow: false,
 };
 /// what the recording key exchange answers: 0 = Ok, 1 = Err(InvalidLoginError), 2 = Err(LibraryError(HmacError))
@@ -173,10 +181,10 @@ pub static mut MKE_KE3_MAC: [u8; 8] = [0; 8];
 pub fn mke_reset(outcome: u8) {
     unsafe {
         REC.calls = 0;
-        REC.l1_len = 0;
-        REC.l2_len = 0;
-        REC.id_u_len = 0;
-        REC.id_s_len = 0;
+        REC.l1 = NO_PARTS;
+        REC.l2 = NO_PARTS;
+        REC.id_u = NO_PARTS;
+        REC.id_s = NO_PARTS;
         REC.ctx_len = 0;
         REC.overflow = false;
         REC.own_pk_ok = false;
@@ -184,33 +192,65 @@ pub fn mke_reset(outcome: u8) {
     }
 }
 
-/// drain an iterator of byte strings into a buffer (at most 6 parts: the longest argument has 5)
-fn drain<'a>(it: impl Iterator<Item = &'a [u8]>, buf: &mut [u8], len: &mut usize) {
-    let mut it = it;
-    let mut n = 0usize;
-    let mut parts = 0;
-    while parts < 6 {
-        match it.next() {
-            Some(p) => {
-                let mut i = 0;
-                while i < p.len() {
-                    if n < buf.len() {
-                        buf[n] = p[i];
-                        n += 1;
-                    } else {
-                        unsafe { REC.overflow = true };
-                    }
-                    i += 1;
-                }
-            }
-            None => break,
+#[inline(always)]
+fn one_part(p: Option<&[u8]>, out: &mut Parts, k: usize) {
+    if let Some(p) = p {
+        out.n = k + 1;
+        out.len[k] = p.len();
+        if p.len() > 0 {
+            out.head[k][0] = p[0];
         }
-        parts += 1;
+        if p.len() > 1 {
+            out.head[k][1] = p[1];
+        }
+        if p.len() > 2 {
+            out.head[k][2] = p[2];
+        }
+        if p.len() > 3 {
+            out.head[k][3] = p[3];
+        }
     }
-    if it.next().is_some() {
-        unsafe { REC.overflow = true };
+}
+
+/// six `next()` calls, no loop
+fn fingerprint<'a>(it: impl Iterator<Item = &'a [u8]>) -> Parts {
+    let mut it = it;
+    let mut out = NO_PARTS;
+    one_part(it.next(), &mut out, 0);
+    one_part(it.next(), &mut out, 1);
+    one_part(it.next(), &mut out, 2);
+    one_part(it.next(), &mut out, 3);
+    one_part(it.next(), &mut out, 4);
+    one_part(it.next(), &mut out, 5);
+    out.more = it.next().is_some();
+    out
+}
+
+/// does `p` consist of exactly the given parts (length and first four bytes each)?
+pub fn parts_are(p: &Parts, want: &[&[u8]]) -> bool {
+    let mut ok = p.n == want.len() && !p.more;
+    let mut k = 0;
+    while k < want.len() && k < 6 {
+        ok &= p.len[k] == want[k].len();
+        let mut i = 0;
+        while i < 4 && i < want[k].len() {
+            ok &= p.head[k][i] == want[k][i];
+            i += 1;
+        }
+        k += 1;
     }
-    *len = n;
+    ok
+}
+
+fn copy_ctx(context: &[u8]) {
+    unsafe {
+        REC.ctx_len = context.len();
+        let mut i = 0;
+        while i < context.len() && i < 8 {
+            REC.ctx[i] = context[i];
+            i += 1;
+        }
+    }
 }
 
 pub struct MKe;
@@ -239,16 +279,16 @@ impl KeyExchange<MHash, G241> for MKe {
     ) -> Result<GenerateKe2Result<Self, MHash, G241>, ProtocolError<S::Error>> {
         unsafe {
             REC.calls += 1;
-            drain(l1_bytes, &mut REC.l1, &mut REC.l1_len);
-            drain(l2_bytes, &mut REC.l2, &mut REC.l2_len);
-            drain(id_u, &mut REC.id_u, &mut REC.id_u_len);
-            drain(id_s, &mut REC.id_s, &mut REC.id_s_len);
-            drain([context].into_iter(), &mut REC.ctx, &mut REC.ctx_len);
-            REC.ke1_msg.copy_from_slice(&ke1_message.serialize());
-            REC.peer_pk.copy_from_slice(&client_s_pk.serialize());
+            REC.l1 = fingerprint(l1_bytes);
+            REC.l2 = fingerprint(l2_bytes);
+            REC.id_u = fingerprint(id_u);
+            REC.id_s = fingerprint(id_s);
+            copy_ctx(context);
+            put(&mut REC.ke1_msg, &ke1_message.serialize());
+            put(&mut REC.peer_pk, &client_s_pk.serialize());
             // the static Diffie-Hellman is the one operation asked of the server's key here (C18)
             let dh = server_s_sk.diffie_hellman(PublicKey::<G241>::deserialize(&[PK_TAG, GEN2]).map_err(InternalError::into_custom)?)?;
-            REC.own_pk.copy_from_slice(&dh); // DH with the generator == the key's public key
+            put(&mut REC.own_pk, &dh); // DH with the generator == the key's public key
             REC.own_pk_ok = true;
             match MKE_OUTCOME {
                 0 => Ok((
@@ -274,14 +314,14 @@ impl KeyExchange<MHash, G241> for MKe {
     ) -> Result<GenerateKe3Result<Self, MHash, G241>, ProtocolError> {
         unsafe {
             REC.calls += 1;
-            drain(serialized_credential_request, &mut REC.l1, &mut REC.l1_len);
-            drain(l2_component, &mut REC.l2, &mut REC.l2_len);
-            drain(id_u, &mut REC.id_u, &mut REC.id_u_len);
-            drain(id_s, &mut REC.id_s, &mut REC.id_s_len);
-            drain([context].into_iter(), &mut REC.ctx, &mut REC.ctx_len);
-            REC.ke2_msg.copy_from_slice(&ke2_message.serialize());
-            REC.ke1_state.copy_from_slice(&ke1_state.serialize());
-            REC.peer_pk.copy_from_slice(&server_s_pk.serialize());
+            REC.l1 = fingerprint(serialized_credential_request);
+            REC.l2 = fingerprint(l2_component);
+            REC.id_u = fingerprint(id_u);
+            REC.id_s = fingerprint(id_s);
+            copy_ctx(context);
+            put(&mut REC.ke2_msg, &ke2_message.serialize());
+            put(&mut REC.ke1_state, &ke1_state.serialize());
+            put(&mut REC.peer_pk, &server_s_pk.serialize());
             REC.own_pk = spec::ke_public(client_s_sk.serialize()[0]);
             REC.own_pk_ok = true;
             match MKE_OUTCOME {
